@@ -41,7 +41,7 @@ def histories(rng, tier):
                 ln = gen.upd_line(rng, c, focus=focus)
                 h += [ln, ln.replace(' a ', ' b ', 1)]
             else:
-                ln = gen.updr_line(rng, c, path='slice')
+                ln = gen.updr_line(rng, c, path='slice', focus=focus)
                 h += [ln, ln.replace(' a ', ' b ', 1).replace('path=slice', 'path=expand')]
             h += ['state a', 'state b', 'vals a', 'vals b']
         out.append(h)
